@@ -245,7 +245,17 @@ func c20Shutdown(r *core.Run, agentBin string, md *fakes.Metadata, c c20ShutCase
 		rel     chan []byte
 	}
 	var lists []*listCall
+	failing := false
+	var failedArrivals []time.Time
 	px.OnList = func(w http.ResponseWriter, req *http.Request) bool {
+		mu.Lock()
+		if failing {
+			failedArrivals = append(failedArrivals, time.Now())
+			mu.Unlock()
+			http.Error(w, "scripted outage", 503)
+			return true
+		}
+		mu.Unlock()
 		lc := &listCall{arrived: time.Now(), rel: make(chan []byte, 1)}
 		mu.Lock()
 		lists = append(lists, lc)
@@ -305,6 +315,50 @@ func c20Shutdown(r *core.Run, agentBin string, md *fakes.Metadata, c c20ShutCase
 		return
 	}
 	tok := "sd" + c.Name
+	if c.Phase == "proxy-failing" {
+		// the proxy starts failing list calls shortly before the signal; the agent is in its retry loop
+		mu.Lock()
+		failing = true
+		mu.Unlock()
+		l1.rel <- []byte("[]")
+		time.Sleep(60 * time.Millisecond)
+		sig := syscall.SIGINT
+		if c.Signal == "TERM" {
+			sig = syscall.SIGTERM
+		}
+		tSig := time.Now()
+		agent.Signal(sig)
+		r.Case(fmt.Sprintf("shutdown|%s|grace=%d|%s|-", c.Signal, c.GraceS, c.Phase))
+		if _, err := agent.WaitLog(c20BeginRe, 10*time.Second); err != nil {
+			r.Violate("C20:signal-ignored:"+c.Signal, fmt.Sprintf("scenario %s: no graceful shutdown began within 10s of SIG%s while the proxy was failing", c.Name, c.Signal), c, nil)
+			return
+		}
+		tObs := time.Now()
+		grace := time.Duration(c.GraceS) * time.Second
+		select {
+		case <-agent.Done():
+			if d := time.Since(tSig); d < grace-50*time.Millisecond {
+				r.Violate("C20:exited-before-grace-period:"+c.Signal, fmt.Sprintf("scenario %s: exited %v after SIG%s, before the %ds period ended", c.Name, d.Round(time.Millisecond), c.Signal, c.GraceS), c, nil)
+			}
+		case <-time.After(grace + 10*time.Second):
+			r.Violate("C20:no-exit-after-grace-period", fmt.Sprintf("scenario %s: still running %v after SIG%s with a %ds period (proxy failing)", c.Name, time.Since(tSig).Round(time.Millisecond), c.Signal, c.GraceS), c, nil)
+		}
+		mu.Lock()
+		late := 0
+		for _, a := range failedArrivals {
+			if a.After(tObs) {
+				late++
+			}
+		}
+		nFailed := len(failedArrivals)
+		mu.Unlock()
+		// one call may have been past the context check when the shutdown was announced
+		if late > 1 {
+			r.Violate("C20:polled-after-shutdown-began:proxy-failing", fmt.Sprintf("scenario %s: %d pending-list calls started after the graceful shutdown had been announced while the proxy was failing list calls (at most the one in flight may)", c.Name, late), c, nil)
+		}
+		r.Sample(map[string]interface{}{"case": c, "failing_list_calls": nFailed, "after_announcement": late})
+		return
+	}
 	if c.Phase != "idle" {
 		px.Store(tok, tokRequest("GET", tok, 4000, 0, "c20.example", nil, nil), "")
 		l1.rel <- []byte(fmt.Sprintf("[%q]", tok))
@@ -471,9 +525,12 @@ func C20(r *core.Run) {
 	}
 	for _, sig := range []string{"INT", "TERM"} {
 		for _, g := range []int{0, 2, 5} {
-			for _, ph := range []string{"idle", "listed", "at-backend", "uploading"} {
+			for _, ph := range []string{"idle", "listed", "proxy-failing", "at-backend", "uploading"} {
 				for _, fin := range []string{"inside", "outside"} {
-					if (ph == "idle" || ph == "listed") && fin == "outside" {
+					if (ph == "idle" || ph == "listed" || ph == "proxy-failing") && fin == "outside" {
+						continue
+					}
+					if ph == "proxy-failing" && g == 0 {
 						continue
 					}
 					if g == 0 && fin == "outside" {
